@@ -465,7 +465,7 @@ def memo_coherence(ctx, rule):
                     if ep.id == fb.id:
                         continue
                     te = eff.trans(ep.id)
-                    if (sid, dep) in te and (sid, memo) not in te:
+                    if (sid, dep) in te and ((sid, memo) not in te or not must_reset(ctx, ep, (sid, memo), set())):
                         offenders.append(ep)
                 pub_field = any(f["name"] == dep and f["public"] for f in store["variants"][0]["fields"])
                 if guarded:
@@ -483,6 +483,62 @@ def memo_coherence(ctx, rule):
                                  {"witness": "search \"\" ; change %s ; search \"\" again returns the stale ranking" % dep},
                                  kind="S")
             ctx.count("memo_deps_%s" % memo, len(deps))
+
+
+def must_reset(ctx, body, cell, visiting):
+    """on every path from entry to return, `body` resets `cell` (assigns it a fresh value / None) itself or through a local
+    callee that must reset it"""
+    if body.id in visiting:
+        return False
+    visiting = visiting | {body.id}
+    sy = ctx.sym(body)
+    cfg = ctx.cfg(body)
+    blocks = set()
+    for bi, si, st in body.iter_stmts():
+        if st["k"] != "assign" or body.blocks[bi]["cleanup"] or not st["place"]["p"]:
+            continue
+        ch, root = field_chain(sy.place(st["place"]))
+        if ch and ch[-1] == cell:
+            v = sy.rvalue(st["rv"])
+            fresh = (v[0] == "agg" and v[2].endswith("Option::None")) or (v[0] == "call" and v[1].endswith(("RefCell::new", "Default::default")))
+            if fresh:
+                blocks.add(bi)
+        elif not ch:
+            # whole-struct replacement resets every field that is not carried over
+            adt = U.adt_of(ctx.facts, st["place"]["ty"])
+            if adt == cell[0] and (body.id, cell) in ctx.eff.why and ctx.eff.why[(body.id, cell)][0] == "whole-struct-assign":
+                blocks.add(bi)
+    for bi, t in body.calls():
+        tgt = t.get("resolved") or t.get("callee")
+        cb = ctx.facts.bodies.get(tgt)
+        if cb is not None and t.get("callee_local"):
+            if cell in ctx.eff.trans(cb.id) and must_reset(ctx, cb, cell, visiting):
+                blocks.add(bi)
+            elif ctx.eff.param_writes.get(cb.id):
+                # helper that resets through a parameter bound to the cell here
+                for pi in ctx.eff.param_writes[cb.id]:
+                    if pi - 1 < len(t["args"]):
+                        ch, _ = field_chain(sy.operand(t["args"][pi - 1]))
+                        if ch and ch[-1] == cell and _param_must_reset(ctx, cb, pi):
+                            blocks.add(bi)
+    if not blocks:
+        return False
+    return cfg.every_path_passes(0, blocks)
+
+
+def _param_must_reset(ctx, body, pi):
+    """helper `fn f(cell: &RefCell<Option<_>>)`: assigns None / a fresh value through parameter `pi` on every path"""
+    sy = ctx.sym(body)
+    cfg = ctx.cfg(body)
+    blocks = set()
+    for bi, si, st in body.iter_stmts():
+        if st["k"] == "assign" and st["place"]["p"] and not body.blocks[bi]["cleanup"]:
+            ch, root = field_chain(sy.place(st["place"]))
+            if not ch and root == ("arg", pi):
+                v = sy.rvalue(st["rv"])
+                if (v[0] == "agg" and v[2].endswith("Option::None")) or (v[0] == "call" and v[1].endswith("RefCell::new")):
+                    blocks.add(bi)
+    return bool(blocks) and cfg.every_path_passes(0, blocks)
 
 
 def _reach_avoiding_ret(cfg, start, avoid_block):
